@@ -308,6 +308,43 @@ def user_mutations_stay_local():
     return None
 
 
+def handed_over_options_are_copied():
+    """An instance takes a COPY of whatever options object it is given: handing one instance's `options` to another (set(),
+    a configuration dict, the constructor) must not couple them - a later option change on either leaves the other as it was."""
+    from markdown_it import MarkdownIt
+
+    routes = {
+        "b.set(a.options)": lambda a, b: b.set(a.options),
+        "b.configure({'options': a.options, 'components': {}})": lambda a, b: b.configure({"options": a.options, "components": {}}),
+        "b.configure('commonmark', a.options)": lambda a, b: b.configure("commonmark", a.options),
+    }
+    changes = [("item", "breaks", True), ("attr", "html", False), ("item", "langPrefix", "x-"), ("attr", "typographer", True),
+               ("item", "xhtmlOut", False), ("item", "maxNesting", 2), ("item", "quotes", "«»‹›")]
+    for rname, route in routes.items():
+        for who in ("giver", "taker"):
+            a = MarkdownIt("commonmark", {"html": True})
+            b = MarkdownIt("commonmark")
+            try:
+                route(a, b)
+            except Exception:  # noqa: BLE001
+                continue
+            mutated, other = (a, b) if who == "giver" else (b, a)
+            before_state = deep_state(other)
+            before = [call(other, "render", d) for d in PROBE_DOCS]
+            for how, k, v in changes:
+                if how == "item":
+                    mutated.options[k] = v
+                else:
+                    setattr(mutated.options, k, v)
+            after = [call(other, "render", d) for d in PROBE_DOCS]
+            if deep_state(other) != before_state or after != before:
+                k = next((i for i, (x, y) in enumerate(zip(before, after)) if x != y), 0)
+                return {"kind": "two instances share one options object after a hand-over: changing an option on one changed the other",
+                        "route": rname, "mutated": who, "src": PROBE_DOCS[k], "before": str(before[k])[:400], "after": str(after[k])[:400],
+                        "options_before": before_state["options"], "options_after": deep_state(other)["options"]}
+    return None
+
+
 def constructor_arguments_decide():
     """Two instances built with the same constructor arguments - a renderer subclass, a preset given as a
     dict, an options_update - behave identically whatever was constructed or parsed in between; the
@@ -437,7 +474,8 @@ def run(ctx) -> int:
             direct_fail = (h, d)
             break
     if direct_fail is None:
-        d = refs_do_not_travel() or constructor_arguments_decide() or user_mutations_stay_local() or toggle_each_rule()
+        d = (refs_do_not_travel() or constructor_arguments_decide() or handed_over_options_are_copied() or user_mutations_stay_local()
+             or toggle_each_rule())
         if d is not None:
             direct_fail = ([], d)
     if direct_fail is None:
@@ -503,5 +541,9 @@ def replay(body) -> int:
     h = body.get("history") or body.get("correspondence", {}).get("history")
     print("history:", json.dumps(h)[:2000])
     d = direct_property(h) if h else None
+    if not h:
+        # the fixed probes that need no generated history
+        d = (refs_do_not_travel() or constructor_arguments_decide() or handed_over_options_are_copied() or user_mutations_stay_local()
+             or toggle_each_rule())
     print("property on implementation:", "VIOLATED " + json.dumps(d, default=str)[:1500] if d else "holds")
     return 1 if d else 0
